@@ -26,7 +26,7 @@ NoEx == [pid |-> -1, seq |-> -1, ch |-> -1, hex |-> "", first |-> 0, last |-> 0,
          ntx |-> 0, fate |-> "none", ft |-> 0, lastTx |-> 0, ep |-> -1, ast |-> -1, nfor |-> 0]
 
 Init0 ==
-  [ R |-> 0, T |-> 0, H |-> 0, M |-> 256, tcp |-> FALSE, exact |-> TRUE, slk |-> 0, run |-> 0,
+  [ R |-> 0, T |-> 0, H |-> 0, M |-> 256, tcp |-> FALSE, exact |-> TRUE, slk |-> 0, stall |-> 0, run |-> 0,
     now |-> 0,
     \* ---- connection phase
     phase |-> "init",        \* init | connecting | up | down
@@ -85,7 +85,7 @@ FlagIf(o, c, tag) == IF c THEN Flag(o, tag) ELSE o
 \* granularity) but goroutines may be scheduled late, so upper bounds get four times the slack of
 \* lower bounds.
 Slk(o) == o.slk
-USlk(o) == IF o.exact THEN 0 ELSE 4 * o.slk + o.T   \* real time: upper bounds only catch gross lateness (starved machines exist)
+USlk(o) == IF o.exact THEN 0 ELSE 4 * o.slk + o.T + 2 * o.stall   \* real time: upper bounds only catch gross lateness (starved machines exist)
 \* a happened at b: not earlier than b - slack, not later than b + upper slack
 Near(o, a, b) == b - a <= Slk(o) /\ a - b <= USlk(o)
 
@@ -176,8 +176,14 @@ InConnStateRes(o, e) ==
   IF o.phase # "up" \/ e.ch # o.ch THEN o
   ELSE IF e.st = 0 THEN [o EXCEPT !.hbOk = Append(@, e.t)]
   ELSE \* a non-OK response: consumed by a waiting worker (=> reconnect now) or parked for R
-       IF Len(o.hb) > 0 THEN [o EXCEPT !.cause = TRUE, !.reconnDue = TRUE, !.hbBadT = e.t]
-       ELSE [o EXCEPT !.hbBadT = e.t]
+       \* A worker is certainly still waiting only if no OK response it could have consumed (taken in
+       \* since R before its start: handleConnStateRes offers every response for R) was seen; a worker
+       \* that may already have returned on such a stale OK leaves this response parked instead.
+       LET waiting == {i \in 1..Len(o.hb) :
+                         {j \in 1..Len(o.hbOk) : o.hbOk[j] >= o.hb[i].start - o.R - Slk(o) /\ o.hbOk[j] <= e.t} = {}}
+       IN IF waiting # {} THEN [o EXCEPT !.cause = TRUE, !.reconnDue = TRUE, !.hbBadT = e.t]
+          ELSE IF Len(o.hb) > 0 THEN [o EXCEPT !.cause = TRUE, !.hbBadT = e.t]
+          ELSE [o EXCEPT !.hbBadT = e.t]
 
 -----------------------------------------------------------------------------
 (* Sender (C03) *)
@@ -467,7 +473,8 @@ Cfg(o, e) ==
   [Init0 EXCEPT !.R = e.a, !.T = e.b, !.H = e.g, !.run = e.pid, !.M = IF e.seq > 0 THEN e.seq ELSE 256,
                 !.tcp = (e.s \in {"tcp,bubble", "tcp,real"}),
                 !.exact = (e.s \in {"udp,bubble", "tcp,bubble"}),
-                !.slk = IF e.s \in {"udp,bubble", "tcp,bubble"} THEN 0 ELSE e.ch]
+                !.slk = IF e.s \in {"udp,bubble", "tcp,bubble"} THEN 0 ELSE e.ch,
+                !.stall = IF e.st > 0 THEN e.st ELSE 0]   \* measured scheduling lateness of a real-time run (lib/vlib.annotate_stalls)
 
 \* C09 demands that both numberings restart at 0 and all frames carry the new channel after a
 \* reconnect: the sender / receiver clauses that express this are attributed to C09 as well when
